@@ -120,6 +120,7 @@ def relations(cases, impl, model):
         pending = False; pos = 0; why = None
         for op, o in zip(ops, obs):
             if op[0] == "stop-after": pending = True
+            if o == "ok": continue              # the observation of (stop-after n)
             if not isinstance(o, list): break
             if o[0] == "strs":
                 REL_STATS["solve_all_checked"] += 1
